@@ -410,11 +410,21 @@ func zzC13Main(r *simcore.Run, t *testing.T) {
 		r.Kind("crash2-" + c1.String() + "+" + c2.String())
 		ex := &zzC13Exec{r: r, t: t, sc: sc, ref: refOut, crashes: []zzC13Crash{c1, c2},
 			src: &zzC13Src{r: r, ops: sc.ops}}
+		if c2.k%3 == 0 {
+			// one double crash in three: the chain moves on for 1-5 blocks
+			// after the SECOND crash (no draw: older tapes keep their layout)
+			ex.down = []int{0, 1 + c2.k%5}
+		}
 		r.Logf("=== double crash execution %s then %s", c1, c2)
 		ex.execute()
 		if len(ex.fired) > 1 {
 			completed++
 			r.Count("fault_second_crash")
+			if ex.downBlocks > 0 {
+				r.Count("fault_restart_after_downtime")
+				r.Count("probe_downtime_after_second_crash")
+				r.Add("fault_downtime_blocks", int64(ex.downBlocks))
+			}
 		}
 	}
 	// ---- downtime arm: one crash, then the chain moves on for a few blocks
